@@ -23,6 +23,10 @@ is then no longer known to describe the code (the scheduler shim switches thread
 namespace Eng3
 
 def sharedFields : List String := ["pending_nodes", "busy_threads", "best_result", "best_score", "statistics"]
+/-- the types of the shared fields: the queue is a `BinaryHeap` — a multiset of pending entries (two
+    entries that compare equal are both kept), which is how `Cfg.pending` models it -/
+def sharedTypes : List String :=
+  ["BinaryHeap<PendingProblem<SubProblem, Score>>", "u32", "Option<Solution>", "Score", "Statistics"]
 def syncImports : List String := ["Arc", "Condvar", "Mutex"]
 def syncOps : List String :=
   ["spawn", "join",                                   -- solve: start the workers, join them in order
@@ -35,7 +39,7 @@ def syncOps : List String :=
 
 theorem sync_tie :
     Const.BAB_SHARED_FIELDS = sharedFields ∧ Const.BAB_SYNC_IMPORTS = syncImports ∧
-    Const.BAB_SYNC_OPS = syncOps ∧ Const.BAB_SYNC_OTHER = [] :=
-  ⟨rfl, rfl, rfl, rfl⟩
+    Const.BAB_SYNC_OPS = syncOps ∧ Const.BAB_SYNC_OTHER = [] ∧ Const.BAB_SHARED_TYPES = sharedTypes :=
+  ⟨rfl, rfl, rfl, rfl, rfl⟩
 
 end Eng3
